@@ -1,5 +1,7 @@
 package sim
 
+import "strings"
+
 // Input pools of the history and fault workloads (DESIGN §4.2): every
 // registered multi-character symbol of every tokenizer, one lexeme of every
 // token class, unterminated literals, malformed inputs, Latin-1 and non-Latin
@@ -20,7 +22,7 @@ var poolTokenizer = []string{
 
 var poolCsv = []string{
 	"a,b\r\n1,2", "\"q\"\"x\",y\n\r", "\"unterminated", ",,\n", "\r\n\r\n", "\n\r", "x\ry", "é,λ\r\n日本,", "", "a", "'a',\"b\"",
-	"1;2;3", "\"a\r\nb\",c", "😀,😀😀\n", "\uffff,\uffff",
+	"1;2;3", "\"a\r\nb\",c", "a,«", "«x»,y", "名", "a，b", "名，«q»\n", "x,\"", "«", "😀,😀😀\n", "\uffff,\uffff",
 }
 
 var poolMustache = []string{
@@ -36,8 +38,15 @@ var poolExpression = []string{
 	"1 +", "(a", "a b", ")", "a[1", "f(", "f(1,", "1 2", "", "  ", "a LIKE 'x'", "Unknown(1)", "zz", "1/0", "'é'", "'abc", "a <= ", "<= a",
 	"a<=b AND a<>b AND a<<b", "If(a<=b, a<<1, a>>1)",
 	"1%0", "a/(b-2)", "Array(1,2)[5]", "'abc'[7]", "Array(1)[-1]", "''[0]", "1 << -1", "a >> -2", "zz NOT IN Array(1)", "zz IN Array(1)",
+	"'1' + 1", "1 + '1'", "1 + 2.5", "TRUE + 1", "1 = '1'", "'2' * 3",
+	"((((((((((((((((((((((((((((((((((((((((1 +", "Max(Max(Max(Max(Max(Max(Max(Max(Max(Max(1,", "a[a[a[a[a[a[a[a[a[a[1",
 	"1 /*x*/😀", "a + 😀", "😀😀", "'😀' + 'x'", "a /* c */ /* d */ + 1",
 	"Min(zz, 1)", "Choose(-1, 1, 2, 3)", "Choose(9, 1, 2, 3)", "If('x', 1, 2)", "'é' + 'λ'", "\"é\"",
+}
+
+func init() {
+	// one expression nested deeper than any plausible fixed limit, well formed
+	poolExpression = append(poolExpression, strings.Repeat("(", 300)+"1"+strings.Repeat(")", 300))
 }
 
 // defaultVarSet is the variable assignment used with pool expressions.
